@@ -248,8 +248,8 @@ func zzvRaw(method, target string, pres string, addQuery bool) string {
 		q = append(q, "token=wrong-"+zzvToken)
 	case "basic":
 		hdr = "Authorization: Basic " + zzvToken + "\r\n"
-	case "lower":
-		hdr = "Authorization: bearer " + zzvToken + "\r\n"
+	case "empty":
+		hdr = "Authorization: Bearer \r\n"
 		q = append(q, "token=wrong")
 	case "both":
 		hdr = "Authorization: Bearer not-" + zzvToken + "\r\n"
